@@ -18,9 +18,20 @@ try:
     import sa.specialise
     p = model.Program.load(wt)
     names = sorted(q for q, f in p.funcs.items() if '<lambda>' not in q)
+    import ast
+    consts = set()
+    for m in p.modules.values():
+        for b in m.tree.body:
+            if isinstance(b, ast.Assign):
+                consts |= {m.name + '.' + t.id for t in b.targets if isinstance(t, ast.Name)}
+    for c in p.classes.values():
+        for b in c.node.body:
+            if isinstance(b, ast.Assign):
+                consts |= {c.qn + '.' + t.id for t in b.targets if isinstance(t, ast.Name)}
+    consts = sorted(consts)
 finally:
     subprocess.call(['git', '-C', '/repo', 'worktree', 'remove', '--force', wt])
 json.dump({'comment': 'qualified names of the functions of the tree the rules were confirmed on (tools/gen_vocabulary.py)',
-           'commit': subprocess.check_output(['git', '-C', '/repo', 'rev-parse', 'HEAD'], text=True).strip(), 'functions': names},
+           'commit': subprocess.check_output(['git', '-C', '/repo', 'rev-parse', 'HEAD'], text=True).strip(), 'functions': names, 'constants': consts},
           open(out, 'w'), indent=0)
-print(len(names), 'functions')
+print(len(names), 'functions', len(consts), 'constants')
